@@ -22,6 +22,13 @@ MODULES = ["CobyqaVerif.Props.C04"]
 LEVEL = "exploration"
 FAMILIES = ["unconstrained", "bounds", "equality", "interval1d", "ball"]
 DIST_TOL = 1e-4
+# A linear objective over a ball: the minimiser sits on a curved boundary, so a point at tangential distance d from it is
+# worse by only nu d^2 / (2 rho) (Lean: ball_distance).  With the final radius 1e-6 the solver cannot, and need not,
+# tell apart points whose objective values differ by less than ~ nu * 1e-6: among the points it evaluates, the feasible
+# one with the least objective (which C03 obliges it to return) lies up to sqrt(2 rho 1e-6 K) away.  The distance
+# allowed for this family is therefore the one implied by an objective gap of GAP_RADII final radii.
+GAP_RADII = 10.0
+RADIUS_FINAL = 1e-6
 FEAS_TOL = float(np.sqrt(np.finfo(float).eps))
 
 
@@ -232,21 +239,60 @@ def solve(inst):
             return {"raised": type(exc).__name__ + ": " + str(exc)[:200]}
     xs = np.array([float(v) for v in inst["xstar"]])
     x = np.asarray(res.x, float)
-    return {"status": int(res.status), "success": bool(res.success), "x": x.tolist(), "nfev": int(res.nfev),
+    gap = float(c @ x - c @ xs) if inst["family"] == "ball" else float(fun(x) - fun(xs))
+    return {"status": int(res.status), "success": bool(res.success), "x": x.tolist(), "nfev": int(res.nfev), "gap": gap,
             "dist": float(np.linalg.norm(x - xs)), "rel": float(np.linalg.norm(x - xs) / max(1.0, np.linalg.norm(xs))),
             "violation": viol(x), "maxcv": float(getattr(res, "maxcv", 0.0))}
 
 
-def judge(out):
+def dist_tol(inst):
+    if inst["family"] == "ball":
+        return float(np.sqrt(2.0 * float(inst["rho"]) * GAP_RADII * RADIUS_FINAL)), "sqrt(2 rho * 10 radius_final) (ball_distance)"
+    return DIST_TOL * max(1.0, float(np.linalg.norm([float(v) for v in inst["xstar"]]))), "1e-4 max(1,|x*|)"
+
+
+def judge(inst, out):
     if "raised" in out:
         return "minimize raised " + out["raised"]
     if out["status"] != 0 or not out["success"]:
         return f"terminated with status {out['status']} (success={out['success']}) instead of 0"
     if not out["violation"] <= FEAS_TOL:
         return f"returned point violates the constraints by {out['violation']!r} > feasibility_tol"
-    if not out["rel"] <= DIST_TOL:
-        return f"status 0 / success, but the returned point is at relative distance {out['rel']!r} from the certified unique minimiser"
+    tol, how = dist_tol(inst)
+    if not out["dist"] <= tol:
+        return f"status 0 / success, but the returned point is at distance {out['dist']!r} > {tol:.3g} = {how} from the certified unique minimiser"
+    if inst["family"] == "ball" and not out["gap"] <= GAP_RADII * RADIUS_FINAL * float(inst["nu"]):
+        return f"status 0 / success, but the objective exceeds the certified minimum by {out['gap']!r}"
     return None
+
+
+def diagnose(inst):
+    """re-run a failing instance with observers on the real classes and describe HOW it failed (used only to match the
+    signatures of KNOWN_FINDINGS.json; never to excuse a failure that shows no listed signature)"""
+    import cobyqa.framework as F
+    import cobyqa.models as M
+    seen = {"ill": [], "res": []}
+    o_up, o_tr = M.Models.update_interpolation, F.TrustRegion.get_trust_region_step
+
+    def up(self, *a, **k):
+        r = o_up(self, *a, **k)
+        seen["ill"].append(bool(r))
+        return r
+
+    def tr(self, *a, **k):
+        seen["res"].append(float(self.resolution))
+        return o_tr(self, *a, **k)
+    M.Models.update_interpolation, F.TrustRegion.get_trust_region_step = up, tr
+    try:
+        out = solve(inst)
+    finally:
+        M.Models.update_interpolation, F.TrustRegion.get_trust_region_step = o_up, o_tr
+    tail = seen["ill"][-100:]
+    return {"ill_conditioned_updates_in_last_100": int(sum(tail)),
+            "cycling_at_final_resolution_with_ill_conditioned_system": bool(len(tail) == 100 and all(tail) and seen["res"] and
+                                                                            min(seen["res"][-50:]) <= RADIUS_FINAL * (1 + 1e-12) and
+                                                                            max(seen["res"][-50:]) <= RADIUS_FINAL * (1 + 1e-12)),
+            "reached_minimiser": bool(out.get("dist", 1.0) <= dist_tol(inst)[0])}
 
 
 def _work(j):
@@ -287,7 +333,7 @@ def run(chk, rng, replay=None):
     for inst, out in zip(certified, outs):
         key = f"{inst['family']}/{inst['position']}/n={inst['n']}"
         strat[key] = strat.get(key, 0) + 1
-        why = judge(out)
+        why = judge(inst, out)
         if why:
             fails.append((inst, out, why))
         elif "rel" in out:
@@ -296,15 +342,25 @@ def run(chk, rng, replay=None):
     distinct = len({json.dumps(j, sort_keys=True) for j in js if np.linalg.norm(np.array(j["x0"]) - np.array([float(Fr(v)) for v in j["xstar"]])) > 1e-3})
     chk.coverage.update({
         "evaluations": len(insts), "distinct_nontrivial": distinct,
-        "rule": "random instances of the five reference families (strictly convex quadratics H = M M' + delta I with cond <= 100: unconstrained, bound-constrained with the minimiser interior / on a face / at a vertex / weakly active, linear equalities; one-variable quadratics on the interval cut out by bounds and 1-2 linear inequalities; a linear objective over a Euclidean ball given as a nonlinear constraint), n 1..5, dyadic data of order one, x0 at distance 0.1..50 from the minimiser in a random direction, default options. Each minimiser is accepted only through the Lean certificate (exact). An instance passes iff status 0, success, violation <= feasibility_tol (1.5e-8) and |x - x*| <= 1e-4 max(1,|x*|). Non-trivial = distinct instance whose x0 is not the minimiser.",
+        "rule": "random instances of the five reference families (strictly convex quadratics H = M M' + delta I with cond <= 100: unconstrained, bound-constrained with the minimiser interior / on a face / at a vertex / weakly active, linear equalities; one-variable quadratics on the interval cut out by bounds and 1-2 linear inequalities; a linear objective over a Euclidean ball given as a nonlinear constraint), n 1..5, dyadic data of order one, x0 at distance 0.1..50 from the minimiser in a random direction, default options. Each minimiser is accepted only through the Lean certificate (exact). An instance passes iff status 0, success, violation <= feasibility_tol (1.5e-8) and |x - x*| <= 1e-4 max(1,|x*|) (ball: objective gap <= 10 radius_final |c| and the distance that gap implies). Non-trivial = distinct instance whose x0 is not the minimiser.",
         "samples": js[:2], "certified_minimisers": len(certified), "strata": dict(sorted(strat.items())),
         "worst_relative_distance_by_family": worst, "median_nfev": float(np.median(nfev)) if nfev else None, "failures": len(fails),
     })
     chk.assumptions += ["convergence of the floating-point solver is sampled, not proved; the Lean theorems certify the oracle only",
-                        "distance tolerance 1e-4 relative (radius_final default 1e-6); feasibility_tol default sqrt(eps)"]
-    for inst, out, why in fails[:5]:
-        chk.violation({"property": "C04", "kind": "spec-fails-on-implementation", "instance": to_json(inst), "outcome": out, "failure": why,
+                        "distance tolerance 1e-4 max(1,|x*|) for the quadratic families; for the ball the distance implied (Lean: ball_distance) by an objective gap of 10 final radii; feasibility_tol default sqrt(eps)"]
+    reported = 0
+    for inst, out, why in fails:
+        sig = {"family": inst["family"], "failure": " ".join(why.split(" ")[:4])}
+        diag = None
+        if out.get("status") == 5:
+            diag = diagnose(inst)
+            sig.update({k: v for k, v in diag.items() if k != "ill_conditioned_updates_in_last_100"})
+        before = len(chk.violations)
+        chk.violation({"property": "C04", "kind": "spec-fails-on-implementation", "instance": to_json(inst), "outcome": out, "failure": why, "diagnosis": diag,
                        "explain": "harness/props/c04.py solve(from_json(instance)) runs cobyqa.minimize with default options; xstar is the Lean-certified unique minimiser",
-                       "signature": {"family": inst["family"], "failure": why.split(" ")[0]}})
+                       "signature": sig})
+        reported += len(chk.violations) - before
+        if reported >= 5:
+            break
     if not fails and not ok:
         chk.violation({"property": "C04", "kind": "proof-or-correspondence-broken", "broken": info.get("problems")}, no_input=True)
